@@ -29,7 +29,7 @@ def tsrc(t: list) -> str:
     return ref.render_py(t, ref.Imports(), "")
 
 
-def docstring(style: str, params: list[tuple[str, list | None, bool]], result: tuple[list | None, bool] | None) -> str:
+def docstring(style: str, params: list[tuple[str, list | None, bool]], result: tuple[list | None, bool] | None, multi_results: list | None = None) -> str:
     """params: (name, doc type or None, documented?) ; result: (doc type or None, documented?)."""
     lines = ["Summary line.", ""]
     docp = [(n, t) for n, t, documented in params if documented]
@@ -39,7 +39,13 @@ def docstring(style: str, params: list[tuple[str, list | None, bool]], result: t
             for n, t in docp:
                 lines += [f"{n} : {tsrc(t)}" if t else n, f"    desc of {n}"]
             lines.append("")
-        if result and result[1]:
+        if multi_results:
+            lines += ["Returns", "-------"]
+            for i, t in enumerate(multi_results):
+                # an entry without usable type is written with a prose type (the parser reports no type for it)
+                lines += [f"res{i} : {tsrc(t) if t else 'text of arbitrary length'}", f"    desc of result {i}"]
+            lines.append("")
+        elif result and result[1]:
             lines += ["Returns", "-------", tsrc(result[0]) if result[0] else "res", "    desc of result", ""]
     elif style == "GOOGLE":
         if docp:
@@ -88,6 +94,21 @@ def _case(draw: Any, args: dict) -> dict:
             fslots["params"][pn] = [hint, doc]
         ret = None
         result = None
+        multi = None
+        if not is_ctor and style == "NUMPYDOC" and draw(st.integers(0, 2)) == 0:
+            # several results: a tuple hint with one NumPy entry per element; an entry may lack a usable type
+            k = draw(st.integers(2, 3))
+            elems = [draw(st.sampled_from(TYPES)) for _ in range(k)]
+            docs = []
+            for e in elems:
+                other = draw(st.sampled_from([t for t in TYPES if t != e]))
+                docs.append(draw(st.sampled_from([None, e, other, other])))
+            ret = ["tuple", elems]
+            multi = docs
+            fslots["results"] = [[e, d] for e, d in zip(elems, docs)]
+            ds = docstring(style, docparams, None, multi)
+            f = gt.func(name, params, ret=ret, kind=kind, doc=ds)
+            return f, ds, fslots  # type: ignore[return-value]
         if not is_ctor:
             hint, doc = draw(_slot())
             if style == "GOOGLE" and hint is None and doc is None:
@@ -158,6 +179,9 @@ def judge(case: dict) -> dict:
                             exp[f"Different type hint and docstring types for '{fid}'."] += 1
                     if fs["result"] and fs["result"][0] is not None and fs["result"][1] is not None and ref.tr(fs["result"][0]) != ref.tr(fs["result"][1]):
                         exp[f"Different type hint and docstring types for the result of '{fid}'."] += 1
+                    for hint, doc in fs.get("results", []):
+                        if doc is not None and ref.tr(hint) != ref.tr(doc):
+                            exp[f"Different type hint and docstring types for the result of '{fid}'."] += 1
             if msgs != exp:
                 missing = list((exp - msgs).elements())[:2]
                 extra = list((msgs - exp).elements())[:2]
@@ -192,7 +216,15 @@ def judge(case: dict) -> dict:
                         conflict += 1
                     else:
                         agree += 1
-            if fs["result"] is not None:
+            if fs.get("results"):
+                res["evals"] += 1
+                want_l = [expected_type(h, d, pref) for h, d in fs["results"]]
+                got_l = [ref.canon_stub_type(t) for _n, t in hit[1].results]
+                if got_l != want_l:
+                    discs.append(Discrepancy.make("slot_type_differs", f"{fname} results [{pref}]", f"hints/docstring types {[(tsrc(h), tsrc(d) if d else None) for h, d in fs['results']]}: stub {[ref.show(x) for x in got_l]}, expected {[ref.show(x) for x in want_l]}", []))
+                if pref == "CODE" and any(d is None for _h, d in fs["results"]) and any(d is not None and ref.tr(h) != ref.tr(d) for h, d in fs["results"]):
+                    res["stats"].append("tuple_result_with_untyped_and_conflicting_entries")
+            elif fs["result"] is not None:
                 hint, doc = fs["result"]
                 res["evals"] += 1
                 want = expected_type(hint, doc, pref)
